@@ -1099,8 +1099,15 @@ func (dsc *dataStoreCommand) scan(cursor uint32, pattern string, count int, requ
 	})
 }
 
-func (dsc *dataStoreCommand) touch(keyName string) (exists bool) {
-	_, exists = dsc.getKeyObject(keyName)
+func (dsc *dataStoreCommand) touch(keyNames []string) (count int) {
+	dsc.lock()
+	defer dsc.unlock()
+
+	for _, keyName := range keyNames {
+		if _, exists := dsc.getKeyObjectUnlocked(keyName); exists {
+			count++
+		}
+	}
 	return
 }
 
